@@ -762,7 +762,7 @@ theorem family_roundtrip_zoned_total (fmt : List Nat) (z : Zoned) (Y : Int) (o :
     · rw [if_neg ho]; omega
   obtain ⟨r, hr⟩ := from_local_no_panic _ hr1 Y o hvd (truncTime (Strftime.items fmt) t)
     (truncTime_valid _ t htv)
-  simp only [truncate_to_precision, hfd, hft, Bool.and_self, if_true, hl, hr]
+  simp only [truncate_to_precision, hfd, hft, Bool.and_self, if_true, hl, hr, wallInRange_vd Y o hvd]
   cases r <;> rfl
 
 /-- the exclusion of `family_roundtrip_zoned` as a checked fact: where `Spec.truncate_to_precision` makes
@@ -1230,7 +1230,7 @@ example (z : Zoned) (hz : Chrono.Spec.ZInv z) (Y : Int) (o : Nat) (hvd : VD Y o)
       rcases hm with rfl | rfl | rfl | rfl | rfl | rfl | rfl | rfl | rfl | rfl | rfl | rfl | rfl | rfl <;>
         simp [itemFracDigits]
   · rw [hi]
-    exact truncate_zoned_exact _ z hz ⟨dateOfYo Y o, t⟩ hl htv (by decide) (by decide) (by rw [hc])
+    exact truncate_zoned_exact _ z hz ⟨dateOfYo Y o, t⟩ hl htv (wallInRange_vd Y o hvd) (by decide) (by decide) (by rw [hc])
       hfdg (by rw [hc]) hmin
 
 /-- `family_roundtrip_zoned_excluded` is not vacuous: `-262143-01-01T00:00:00 UTC` at offset `+00:00:31`
